@@ -3,6 +3,8 @@ Importable (this directory is on sys.path during checks) so that archives naming
 import collections
 import enum
 
+import numpy as np
+
 Point = collections.namedtuple("Point", ["x", "y"])
 
 
@@ -177,6 +179,31 @@ class SometimesRaises:
 class RaisesStopIteration:
     def __getstate__(self):
         return next(iter(()))          # StopIteration
+
+
+class MyArray(np.ndarray):
+    """an ndarray subclass of the usual kind (constructed from array data)"""
+
+    def __new__(cls, data):
+        return np.asarray(data).view(cls)
+
+
+class GetstateAttributeError:
+    """__getstate__ reads an attribute that is gone -> AttributeError (the exception hasattr/getattr fallbacks swallow)"""
+
+    def __init__(self):
+        self.kept = 1
+
+    def __getstate__(self):
+        return {"kept": self.kept, "handle": self.handle}
+
+
+class GetstateKeyError:
+    def __init__(self):
+        self.kept = 1
+
+    def __getstate__(self):
+        return {"kept": self.__dict__["missing"]}
 
 
 class Outer:
